@@ -57,7 +57,7 @@ def gen(rng, depth, pool, nd=False):
         e = ["call", rng.choice(FUNCS), [gen(rng, depth - 1, pool, nd) for _ in range(rng.choice([1, 2, 3]))],
              {k: gen(rng, depth - 1, pool, nd) for k in kws}]
     elif r < 0.96 or not nd:
-        ex = ["num", rng.choice([2, 3])] if rng.random() < 0.7 else ["var", rng.choice(VARS)]
+        ex = (["num", rng.choice([2, 3, 2, 0.5, 1.5])] if rng.random() < 0.7 else ["var", rng.choice(VARS)])
         e = ["**", gen(rng, depth - 1, pool, nd), ex]
     else:
         c = rng.random()
@@ -150,7 +150,8 @@ def check(expr, free, rec, deciding=True):
     allv = sorted(variables(expr))
     for pt in range(6):
         prng = random.Random(f"v{pt}:{allv}")
-        store = {n: prng.randint(0, 5) for n in allv}
+        # (negative values too: (y**2)**0.5 is |y|, not y)
+        store = {n: prng.randint(0, 5) if pt % 2 == 0 else prng.randint(-4, 4) for n in allv}
         for salt in (5, 17):
             env = Env(dict(store), UFuncs(salt))
             try:
@@ -170,10 +171,13 @@ def check(expr, free, rec, deciding=True):
                     return bad("hoisted-assignments-cyclic", f"cannot order assignments {pending}")
                 got = ev(so, env)
             except Undefined as u:
-                rec.undef(str(u))
-                return
+                # (this valuation has no defined value, e.g. a negative base under a fractional exponent inside a
+                # function argument; the other valuations still decide)
+                rec.count("points_without_defined_value")
+                continue
             rec.count("points_evaluated")
-            if want != got:
+            from vf.sexpr import values_equal
+            if not values_equal(want, got, rtol=1e-9):
                 return bad("value-changed",
                            f"original = {want}, rewritten = {got} at {store} (salt {salt}); "
                            f"result={so}, assignments={sas}")
